@@ -260,6 +260,169 @@ def first_of_stream(m: FnModel, e: ast.AST):
     return ex(elt), [ex(c) for c in filters]
 
 
+def bfs_rule(index: RepoIndex, rep, rule: str) -> None:
+    """the shortest-path distances of `dijkstra`, as written: a worklist loop that, for each
+    popped cell, visits the four unit neighbours and -- exactly when the neighbour lies inside
+    the array on both axes, is walkable and not yet visited -- stores the popped cell's
+    distance plus one, marks it and puts it on the worklist.  Each clause is a necessary
+    condition of "distance in the bounded grid" (numpy indices wrap below zero, so a missing
+    lower bound makes the grid a torus).  Guards are evaluated at small points (extracted
+    expressions, never the code).  Anything else -- a vectorised wavefront, a library call --
+    is outside the grammar (exit 2)."""
+    import itertools
+    from ..guards import strip_iter
+    from ..inteval import CannotEval, ev
+    f = index.func(REWARD, 'dijkstra')
+    w = walk_function(f.node)
+    rets = [e for e in w.events if e.kind == 'return' and e.value is not None]
+    if len(rets) != 1 or not isinstance(rets[0].value, ast.Name):
+        raise AnalysisError('dijkstra: expected one returned distance array')
+    dist = rets[0].value.id
+    rolls = [n_ for n_ in ast.walk(f.node) if isinstance(n_, ast.Call)
+             and src(n_.func) in ('np.roll', 'numpy.roll')]
+    rep.check(not rolls, rule, REWARD, 'dijkstra', f.node.lineno,
+              '; '.join(src(r_)[:60] for r_ in rolls) or 'no circular shift',
+              'np.roll is circular: cells on opposite borders become neighbours',
+              'no circular shift')
+    stores_ = [e for e in w.events if e.kind == 'store' and isinstance(e.target, ast.Subscript)
+               and src(e.target.value) == dist and e.loops]
+    if len(stores_) != 1 or len(stores_[0].loops) != 2 or \
+            src(stores_[0].loops[0][0]) != '_while_':
+        raise AnalysisError('dijkstra is not a worklist loop over unit neighbours (outside '
+                            'the grammar of C12.R6)')
+    dd = w.sole_binding(dist)
+    ok0 = dd is not None and dd[0] == 'value' and isinstance(dd[1], ast.Call) and \
+        src(dd[1].func) in ('np.full', 'numpy.full') and len(dd[1].args) == 2 and \
+        src(dd[1].args[1]) in ("float('inf')", 'np.inf', 'math.inf', 'numpy.inf')
+    rep.check(bool(ok0), rule, REWARD, 'dijkstra', f.node.lineno,
+              src(dd[1]) if dd is not None and dd[0] == 'value' else dist,
+              'distances do not start at infinity for every cell', 'distances start at inf')
+    src_p = f.node.args.args[1].arg
+    stores = [e for e in w.events if e.kind == 'store' and isinstance(e.target, ast.Subscript)
+              and src(e.target.value) == dist]
+    init = [e for e in stores if not e.loops]
+    loop = [e for e in stores if e.loops]
+    rep.check(len(init) == 1 and src(init[0].target.slice) == src_p and
+              src(init[0].value) in ('0.0', '0') and init[0].guard == ('true',), rule, REWARD,
+              'dijkstra', f.node.lineno, '; '.join(src(e.stmt) for e in init),
+              'the source cell does not start at distance 0', 'source at 0')
+    if len(loop) != 1 or len(loop[0].loops) != 2 or \
+            src(loop[0].loops[0][0]) != '_while_':
+        raise AnalysisError('dijkstra is not a worklist loop over unit neighbours (outside '
+                            'the grammar of C12.R6)')
+    st = loop[0]
+    frontier = src(st.loops[0][1])
+    pops = [e for e in w.events if e.kind == 'call' and isinstance(e.node.func, ast.Attribute)
+            and src(e.node.func.value) == frontier and e.node.func.attr in ('popleft', 'pop')]
+    if len(pops) != 1:
+        raise AnalysisError('dijkstra: the worklist is not popped exactly once per round')
+    old = None
+    for nm, ds in w.defs.items():
+        pass
+    olds = [nm for nm, ds in w.defs.items() for d in ds
+            if d[0] == 'unpack' and d[1][0] is pops[0].node]
+    if len(olds) != 2:
+        raise AnalysisError('dijkstra: the popped cell is not unpacked into two coordinates')
+    yo, xo = sorted(olds, key=lambda n: [d[1][1] for d in w.defs[n]][0])
+    # neighbour offsets
+    tvar, it = st.loops[1]
+    offs = None
+    itx = w.expand(it)
+    if isinstance(itx, ast.Name) and not w.defs.get(itx.id):
+        vals_ = f.module.assigns.get(itx.id, [])
+        if len(vals_) == 1:
+            itx = vals_[0]          # a module-level table of offsets
+    if isinstance(itx, (ast.List, ast.Tuple)) and \
+            all(isinstance(t_, ast.Tuple) and len(t_.elts) == 2 for t_ in itx.elts):
+        try:
+            offs = sorted((int(ev(t_.elts[0], {})), int(ev(t_.elts[1], {}))) for t_ in itx.elts)
+        except CannotEval:
+            offs = None
+    rep.check(offs == [(-1, 0), (0, -1), (0, 1), (1, 0)], rule, REWARD, 'dijkstra', st.line,
+              src(it)[:120], f'the neighbours visited are {offs}, not the four unit steps',
+              'four unit neighbours')
+    if offs is None or not (isinstance(tvar, ast.Tuple) and len(tvar.elts) == 2):
+        return
+    dy, dx = (src(t_) for t_ in tvar.elts)
+    idx = w.expand(st.target.slice, stop=[yo, xo, dy, dx])
+    idx_raw = st.target.slice
+    if not (isinstance(idx, ast.Tuple) and len(idx.elts) == 2):
+        raise AnalysisError('dijkstra: the updated cell is not indexed by (row, column)')
+    arr = None
+    for nm in w.defs:
+        d = w.sole_binding(nm)
+        if d is not None and d[0] == 'value' and isinstance(d[1], ast.Call) and \
+                src(d[1].func) in ('np.array', 'numpy.array') and d[1].args and \
+                src(d[1].args[0]) == f.node.args.args[0].arg:
+            arr = nm
+    if arr is None:
+        raise AnalysisError('dijkstra: the layout array is not np.array(layout)')
+    visited = [nm for nm in w.defs if nm not in (dist, arr) and w.sole_binding(nm) is not None
+               and w.sole_binding(nm)[0] == 'value' and isinstance(w.sole_binding(nm)[1], ast.Call)
+               and src(w.sole_binding(nm)[1].func) in ('np.zeros', 'numpy.zeros')]
+    guard = w.expand_formula(strip_iter(st.guard),
+                             stop=[yo, xo, dy, dx, arr, dist, frontier] + visited)
+    try:
+        gexpr = ast.parse(show(guard), mode='eval').body
+    except SyntaxError:
+        raise AnalysisError('dijkstra: update guard outside the grammar')
+    bad = None
+    n = 0
+    for (H, W_), (y0, x0), (oy, ox), walk_ok, seen in itertools.product(
+            ((2, 3), (3, 2)), ((0, 0), (1, 1), (1, 2), (2, 1)), offs, (True, False),
+            (True, False)):
+        if not (y0 < H and x0 < W_):
+            continue
+        env = {yo: y0, xo: x0, dy: oy, dx: ox, f'{arr}.shape[0]': H, f'{arr}.shape[1]': W_,
+               f'{arr}.shape': (H, W_), f'len({arr})': H, f'len({arr}[0])': W_}
+
+        def call(e, env_):
+            return NotImplemented
+        try:
+            ny, nx = int(ev(idx.elts[0], env)), int(ev(idx.elts[1], env))
+            env[f'{arr}[{src(idx.elts[0])}, {src(idx.elts[1])}]'] = walk_ok
+            ytxt, xtxt = src(st.target.slice.elts[0]) if isinstance(st.target.slice, ast.Tuple) \
+                else '', src(st.target.slice.elts[1]) if isinstance(st.target.slice, ast.Tuple) \
+                else ''
+            for a_ in (arr,) + tuple(visited):
+                val = walk_ok if a_ == arr else seen
+                for t_ in (f'{a_}[{src(idx.elts[0])}, {src(idx.elts[1])}]',
+                           f'{a_}[{ytxt}, {xtxt}]'):
+                    env[t_] = val
+            env[frontier] = True
+            got = bool(ev(gexpr, env, call))
+        except CannotEval as ex:
+            raise AnalysisError(f'dijkstra: update guard outside the grammar: {ex}')
+        inside = 0 <= ny < H and 0 <= nx < W_
+        want = inside and walk_ok and not seen
+        n += 1
+        if got != want and bad is None:
+            bad = (H, W_, (y0, x0), (ny, nx), walk_ok, seen, got)
+    rep.check(bad is None, rule, REWARD, 'dijkstra', st.line, show(guard)[:200],
+              'a neighbour is given a distance not exactly when it is inside the array on '
+              'both axes, walkable and unvisited'
+              + (f': {bad[0]}x{bad[1]} layout, from {bad[2]} to {bad[3]} (walkable={bad[4]}, '
+                 f'visited={bad[5]}) the update {"happens" if bad[6] else "is skipped"}'
+                 if bad else ''), f'update guard at {n} points')
+    val = w.expand(st.value, stop=[yo, xo, dy, dx, dist])
+    rep.check(src(val) in (f'{dist}[{yo}, {xo}] + 1', f'1 + {dist}[{yo}, {xo}]',
+                           f'{dist}[{yo}, {xo}] + 1.0'), rule, REWARD, 'dijkstra', st.line,
+              src(st.stmt), 'the neighbour\'s distance is not the popped cell\'s plus one',
+              'distance + 1')
+    marks = [e for e in w.events if e.kind == 'store' and e.loops and visited and
+             src(e.target.value) in visited and src(e.value) == 'True'
+             and src(e.target.slice) == src(st.target.slice) and e.guard == st.guard]
+    pushes = [e for e in w.events if e.kind == 'call' and isinstance(e.node.func, ast.Attribute)
+              and src(e.node.func.value) == frontier and e.node.func.attr == 'append'
+              and e.guard == st.guard]
+    rep.check(len(marks) == 1 and len(pushes) == 1 and
+              src(pushes[0].node.args[0]).strip('()') == src(st.target.slice).strip('()'),
+              rule, REWARD, 'dijkstra', st.line,
+              '; '.join(src(e.stmt) for e in marks + pushes),
+              'an updated neighbour is not marked visited and queued (under the same '
+              'condition)', 'mark and queue')
+
+
 def closer_table(m: FnModel, rep, rule: str) -> None:
     """getting_closer / getting_closer_shortest_path: the returned value is selected by the
     order of two distance terms which are one and the same expression D evaluated in the
@@ -553,6 +716,11 @@ def run(index: RepoIndex, rep) -> None:
               '; '.join(src(o) for o in others)[:200] + f' -> {streams[:1]}',
               'the colour compared with the exit is not that of a Beacon of the next state',
               'beacon of N')
+
+    rep.rule('C12.R6', 'shortest-path distances: worklist loop over the four unit '
+             'neighbours, updated exactly when inside the array (both axes, both sides), '
+             'walkable and unvisited', floor=6)
+    bfs_rule(index, rep, 'C12.R6')
 
     # ---- composition
     for d, relpath, plural, single in ((R, REWARD, 'reward_functions', 'reward_function'),
